@@ -107,6 +107,7 @@ type workerState struct {
 	Samples     []any               `json:"samples"`
 	LastIdx     int64               `json:"last_idx"`
 	Enumerated  int64               `json:"enumerated"`
+	SampledIDs  int64               `json:"sampled_ids"`
 	CapHit      bool                `json:"cap_hit"`
 	Done        bool                `json:"done"`
 	Notes       map[string]any      `json:"notes,omitempty"`
@@ -265,7 +266,7 @@ func (r *Runner) Do(caseID string, fn func(t *T)) {
 	if t.extraEvals > 0 {
 		r.st.Evaluations += t.extraEvals - 1
 		for i := int64(0); i < t.extraDistinct; i++ {
-			r.keys[uint64(len(r.keys))*0x9e3779b97f4a7c15+uint64(r.idx)] = struct{}{}
+			r.keys[(uint64(len(r.keys))*0x9e3779b97f4a7c15+uint64(r.idx))|1] = struct{}{}
 		}
 	}
 	if t.steps == 0 {
@@ -290,11 +291,28 @@ func (r *Runner) Do(caseID string, fn func(t *T)) {
 		}
 		h := fnv.New64a()
 		h.Write([]byte(k))
-		hv := h.Sum64()
+		hv := h.Sum64() | 1 // keys of inputs are odd, sampled case ids (below) end in four zero bits
 		if _, dup := r.keys[hv]; !dup {
 			r.keys[hv] = struct{}{}
 			r.st.Nontrivial++
 			fs.Nontrivial++
+		}
+	}
+	// determinism guard: one case id in sixteen (chosen by its hash) is remembered; the parent counts
+	// the ids remembered by all workers. If workers disagree on which case an index denotes, some
+	// cases run in two workers and others in none: the counts then differ.
+	{
+		h := fnv.New64a()
+		h.Write([]byte(r.family + "\x01" + caseID))
+		if hid := h.Sum64(); hid&15 == 0 && r.replayID == "" {
+			r.keys[hid] = struct{}{}
+			r.st.SampledIDs++
+			if d := os.Getenv("VERIF_DUMP_IDS"); d != "" { // debugging aid for the guard
+				if f, err := os.OpenFile(fmt.Sprintf("%s-%d.txt", d, r.worker), os.O_APPEND|os.O_CREATE|os.O_WRONLY, 0o644); err == nil {
+					fmt.Fprintf(f, "%s\t%s\t%d\n", r.family, caseID, r.idx)
+					f.Close()
+				}
+			}
 		}
 	}
 	if t.sample != nil && (len(r.st.Samples) < 3 || (r.sampleEvery > 0 && (r.idx+r.Seed)%r.sampleEvery == 0 && len(r.st.Samples) < 6)) {
@@ -655,6 +673,27 @@ func runParent(chk *Check, tier string, seed int64) int {
 		}
 	}
 
+	if chk.SingleProcess {
+		merged.Nontrivial = int64(len(allKeys)) // one process: nothing to compare
+		merged.SampledIDs = 0
+		for k := range allKeys {
+			if k&15 == 0 {
+				merged.Nontrivial--
+			}
+		}
+	}
+	// sampled case ids: every one must have run exactly once over all workers
+	idKeys := 0
+	for k := range allKeys {
+		if k&15 == 0 {
+			idKeys++
+		}
+	}
+	if !chk.SingleProcess && len(crashes) == 0 && !capHit && int64(idKeys) != merged.SampledIDs {
+		fmt.Fprintf(os.Stderr, "harness error: %d sampled case ids were executed but only %d are distinct: case ids are not unique, or the workers enumerate the cases in different orders (some cases ran twice, others not at all)\n", merged.SampledIDs, idKeys)
+		return 2
+	}
+
 	// a crash whose stack never enters the code under test is a harness bug, not a verdict
 	for _, c := range crashes {
 		if c.class == "fatal" && strings.HasSuffix(c.detail, "@?") && strings.Contains(c.detail, "unrecovered") {
@@ -740,7 +779,13 @@ func runParent(chk *Check, tier string, seed int64) int {
 		"transitions":                   merged.Transitions,
 		"traces_validated_against_impl": merged.Evaluations,
 		"evaluations":                   merged.Evaluations,
-		"distinct_nontrivial":           len(allKeys),
+		"distinct_nontrivial":           len(allKeys) - idKeys,
+		"sampled_case_ids":              idKeys,
+		// keys executed by more than one worker: with a deterministic enumeration and case ids that are
+		// distinct by construction this is 0; a positive number means that workers disagreed on which
+		// case an index denotes (some cases ran twice, others not at all), unless the check maps
+		// different cases to one key on purpose
+		"cross_worker_duplicates": merged.Nontrivial - int64(len(allKeys)-idKeys),
 		"rule":                          chk.Rule,
 		"samples":                       samples,
 		"exhaustive":                    !capHit,
@@ -772,8 +817,8 @@ func runParent(chk *Check, tier string, seed int64) int {
 		fmt.Fprintln(os.Stderr, err)
 		return 2
 	}
-	fmt.Printf("%s %s: cases=%d transitions=%d distinct_nontrivial=%d classes=%d exhaustive=%v violations=%d known=%d wall=%.1fs\n",
-		chk.ID, tier, merged.Evaluations, merged.Transitions, len(allKeys), len(classes), !capHit, nviol, len(knownHit), wall)
+	fmt.Printf("%s %s: cases=%d transitions=%d distinct_nontrivial=%d classes=%d exhaustive=%v violations=%d known=%d dup=%d wall=%.1fs\n",
+		chk.ID, tier, merged.Evaluations, merged.Transitions, len(allKeys)-idKeys, len(classes), !capHit, nviol, len(knownHit), merged.Nontrivial-int64(len(allKeys)-idKeys), wall)
 	if nviol > 0 {
 		return 1
 	}
@@ -792,6 +837,7 @@ func mergeState(dst, src *workerState) {
 	dst.Evaluations += src.Evaluations
 	dst.Transitions += src.Transitions
 	dst.Nontrivial += src.Nontrivial
+	dst.SampledIDs += src.SampledIDs
 	for k, v := range src.Classes {
 		dst.Classes[k] += v
 	}
